@@ -1,5 +1,106 @@
-//! C16 — not implemented yet.
+//! C16 — swizzle getters and with_ setters permute exactly the lanes their names spell.
+use vcore::*;
+
+/// One lane of a vector type as a canonical word (float bit pattern / two's complement truncated to the width).
+pub trait Lane: Copy + std::fmt::Debug + 'static {
+    const BITS: u32;
+    const FLOAT: bool;
+    const SIGNED: bool;
+    fn fb(w: u64) -> Self;
+    fn tb(self) -> u64;
+}
+impl Lane for f32 {
+    const BITS: u32 = 32;
+    const FLOAT: bool = true;
+    const SIGNED: bool = true;
+    #[inline]
+    fn fb(w: u64) -> f32 {
+        f32::from_bits(w as u32)
+    }
+    #[inline]
+    fn tb(self) -> u64 {
+        self.to_bits() as u64
+    }
+}
+impl Lane for f64 {
+    const BITS: u32 = 64;
+    const FLOAT: bool = true;
+    const SIGNED: bool = true;
+    #[inline]
+    fn fb(w: u64) -> f64 {
+        f64::from_bits(w)
+    }
+    #[inline]
+    fn tb(self) -> u64 {
+        self.to_bits()
+    }
+}
+macro_rules! int_lane {
+    ($t:ty, $u:ty, $bits:expr, $signed:expr) => {
+        impl Lane for $t {
+            const BITS: u32 = $bits;
+            const FLOAT: bool = false;
+            const SIGNED: bool = $signed;
+            #[inline]
+            fn fb(w: u64) -> $t {
+                w as $u as $t
+            }
+            #[inline]
+            fn tb(self) -> u64 {
+                self as $u as u64
+            }
+        }
+    };
+}
+int_lane!(i8, u8, 8, true);
+int_lane!(u8, u8, 8, false);
+int_lane!(i16, u16, 16, true);
+int_lane!(u16, u16, 16, false);
+int_lane!(i32, u32, 32, true);
+int_lane!(u32, u32, 32, false);
+int_lane!(i64, u64, 64, true);
+int_lane!(u64, u64, 64, false);
+int_lane!(usize, u64, 64, false);
+
+/// lanes of a result as canonical words
+#[inline(never)]
+pub fn push<T: Lane, const N: usize>(o: &mut Vec<u64>, a: [T; N]) {
+    for x in a {
+        o.push(x.tb());
+    }
+}
+
+#[cfg(not(feature = "core"))]
+mod simd {
+    pub const VARIANT: &str = "simd";
+    use ::glam_simd as glam;
+    include!("suite.rs");
+}
+#[cfg(not(feature = "core"))]
+mod scalar {
+    pub const VARIANT: &str = "scalar";
+    use ::glam_scalar as glam;
+    include!("suite.rs");
+}
+#[cfg(feature = "core")]
+mod core_simd {
+    pub const VARIANT: &str = "core";
+    use ::glam_core as glam;
+    include!("suite.rs");
+}
+
 fn main() {
-    eprintln!("c16: not implemented");
-    std::process::exit(2);
+    let args = Args::parse();
+    let mut subs = vec![];
+    #[cfg(not(feature = "core"))]
+    {
+        subs.extend(simd::subs(&args));
+        subs.extend(scalar::subs(&args));
+    }
+    #[cfg(feature = "core")]
+    {
+        subs.extend(core_simd::subs(&args));
+    }
+    let code = main_with("C16", "see MANIFEST / evidence rule", &args, subs);
+    std::process::exit(code);
 }
